@@ -4,6 +4,7 @@
    [settle_ping] (the not-answered branch) to the transition system C05 / C06 / C09 are proved about. *)
 From Coq Require Import List NArith ZArith Bool Arith Lia.
 From Dht Require Import Base Msg Server ServerDefs ServerInv Maint.
+From DhtGen Require Import Params.
 Import ListNotations.
 
 Section MaintRefine.
@@ -66,3 +67,39 @@ Section MaintRefine.
     right. exists x. repeat split; assumption.
   Qed.
 End MaintRefine.
+
+(* the other branch of [settle_ping]: an answered ping is the LTS's ordinary response event.  When the datagram passes
+   the serve-loop filters, matches a pending transaction and carries the id of an entry stored at that address, the step
+   completes that query and applies apply_update UResponse to the entry - nothing else of the table changes. *)
+Section MaintRefineResponse.
+  Variable Store : Type.
+  Variable w_put : Store -> witem -> Z -> Store * put_result.
+  Variable w_get : Store -> bytes -> Z -> Store * get_result.
+  Variable sha1 : bytes -> bytes.
+  Variable id_secure : N -> bytes -> bool.
+  Variable cfg : config.
+
+  Lemma answered_ping_is_server_event (s : sstate Store) (n : node) (size : N) (m : msg) (x : txn) :
+    In n (s_nodes Store s) -> n_slot n = slot_of cfg (n_id n) -> N.eqb (n_id n) (c_root cfg) = false ->
+    N.eqb size (Z.to_N udp_buf) = false -> N.eqb (port (n_addr n)) 0 = false ->
+    s_closed Store s = false -> blocked (s_blocklist Store s) (ip (n_addr n)) = false ->
+    bytes_eqb (m_y m) s_q = false ->
+    option_map id_of (sender_id m) = Some (n_id n) ->
+    find (txn_match (addr_key (n_addr n)) (m_t m)) (s_pending Store s) = Some x ->
+    exists s',
+      step Store w_put w_get sha1 id_secure cfg s (EPacket (n_addr n) size (Some m)) no_choice =
+      SR Store s' [ECompleted (tx_qid x) m] /\
+      s_nodes Store s' =
+      replace_node cfg (addr_key (n_addr n)) (n_id n) (apply_update (s_now Store s) UResponse) (s_nodes Store s).
+  Proof.
+    intros Hin Hslot Hroot Hsize Hport Hclosed Hbl Hy Hid Hfind.
+    cbn [step]. rewrite Hsize, Hport, Hclosed, Hbl, Hy, Hfind. rewrite Hid.
+    unfold update_node, get_node. cbn [with_pending s_nodes s_now]. rewrite Hroot.
+    destruct (find (fun k => Nat.eqb (n_slot k) (slot_of cfg (n_id n)) && same_node (addr_key (n_addr n)) (n_id n) k)
+                   (s_nodes Store s)) as [y|] eqn:Ef.
+    - cbn [no_choice ch_victim]. eexists. split; [reflexivity|]. reflexivity.
+    - exfalso. pose proof (find_none _ _ Ef n Hin) as H. cbn beta in H.
+      rewrite Hslot, Nat.eqb_refl in H. unfold same_node in H. rewrite N.eqb_refl, (key_eqb_refl (addr_key (n_addr n))) in H.
+      discriminate H.
+  Qed.
+End MaintRefineResponse.
